@@ -143,6 +143,36 @@ def check_nested_discipline(ctx):
     report(ctx, ctx._c18_paths)
 
 
+def check_failed_create_discipline(ctx):
+    """a creation attempt that fails must not publish the object: other sandboxes' lookups never consult it"""
+    install_race_hook(ctx)
+    arm(ctx)
+    C04.check_bm_failed(ctx)
+    report(ctx, ctx._c18_paths)
+
+
+def check_dlopen_local(ctx):
+    """each dylib sandbox must load its library into a private symbol scope (RTLD_LOCAL): with RTLD_GLOBAL the second
+    instance's library binds its globals to the first one's and the two sandboxes share state"""
+    RTLD_GLOBAL = 0x100
+    ctx.eng.max_strlen = 64
+    paths = ctx.run("k_nested", [BV(0, 32), BV(1, 32)])
+    n = 0
+    for q in paths:
+        for e in q.events:
+            if e[0] == "dlopen":
+                n += 1
+                ctx.obligations += 1
+                if isinstance(e[2], int) and (e[2] & RTLD_GLOBAL) == 0:
+                    ctx.discharged += 1
+                else:
+                    ctx.violations.append({"check": ctx.name, "kernel": "k_nested", "violated": "dlopen flags %r: the sandbox library is not loaded with RTLD_LOCAL" % (e[2],),
+                                           "inputs": {}, "outcome": q.status, "replayed": None})
+    if n == 0:
+        ctx.inconclusive.append("no dlopen call observed")
+    ctx.expected_ok = True
+
+
 def check_tls(ctx, names):
     found = 0
     for nm, g in ctx.eng.m.globals.items():
@@ -186,7 +216,10 @@ def jobs(tier, seed):
     src = '#include "C04_bm.inc"\n'
     for k in ("k_bm_store_load", "k_bm_load"):
         out.append(Job("C18_BM_" + k, src, [dict(name="lock discipline + non-interference " + k, fn=w(check_bm_discipline), kw=dict(k=k), unwind=200)], native=False))
+    out.append(Job("C18_BM_failed_create", src, [dict(name="a failed creation is never published", fn=w(check_failed_create_discipline), unwind=200)], native=False))
     fl = ["-D_GLIBCXX_EXTERN_TEMPLATE=0"]
+    out.append(Job("C18_dylib_scope", C12.DYLIB + '#include "C12_nested.inc"\n', [dict(name="dylib libraries are loaded with a private symbol scope", fn=check_dlopen_local, unwind=400)],
+                   native=False, flags=fl))
     for nm, pre, post, tn in (("noop", C12.NOOP, "", ["thread_data"]), ("noop_etls", C12.NOOP_ETLS, "RLBOX_NOOP_SANDBOX_STATIC_VARIABLES();\n", ["thread_info"]),
                               ("dylib", C12.DYLIB, "", ["thread_data"]), ("dylib_etls", C12.DYLIB_ETLS, "RLBOX_DYLIB_SANDBOX_STATIC_VARIABLES();\n", ["thread_info"])):
         out.append(Job("C18_" + nm, pre + '#include "C12_nested.inc"\n' + post,
